@@ -447,10 +447,91 @@ def _solve_z3_one(facts, goal, timeout_ms):
     return s, str(r), dt
 
 
+def _linear_abstraction(terms, som=True):
+    """replace every product of two non-numeral factors by a fresh real (the same product
+    term always by the same variable).  An over-approximation: if the abstracted query is
+    unsat so is the original one.  Returns (new terms, number of products replaced)."""
+    cache = {}
+    fresh = {}
+
+    def is_num(t):
+        return z3.is_rational_value(t) or z3.is_int_value(t) or z3.is_algebraic_value(t)
+
+    def walk(t):
+        k = t.get_id()
+        if k in cache:
+            return cache[k]
+        if z3.is_quantifier(t) or z3.is_var(t):
+            cache[k] = t
+            return t
+        ch = [walk(c) for c in t.children()]
+        r = t
+        if ch:
+            if z3.is_app_of(t, z3.Z3_OP_MUL):
+                nums = [c for c in ch if is_num(c)]
+                rest = [c for c in ch if not is_num(c)]
+                if len(rest) >= 2:
+                    rest = sorted(rest, key=lambda e: e.get_id())
+                    key = tuple(e.get_id() for e in rest)
+                    if key not in fresh:
+                        srt = z3.RealSort() if any(e.sort() == z3.RealSort() for e in rest) else rest[0].sort()
+                        fresh[key] = (z3.Const("mono!%d" % len(fresh), srt), rest)
+                    r = fresh[key][0]
+                    for n in nums:
+                        r = n * r
+                else:
+                    r = t.decl()(*ch)
+            elif z3.is_app_of(t, z3.Z3_OP_DIV) and not is_num(ch[1]):
+                key = ("div", ch[0].get_id(), ch[1].get_id())
+                if key not in fresh:
+                    fresh[key] = (z3.Const("quot!%d" % len(fresh), t.sort()), ch)
+                r = fresh[key][0]
+            else:
+                try:
+                    r = t.decl()(*ch)
+                except z3.Z3Exception:
+                    r = t
+        cache[k] = r
+        return r
+
+    # sums of monomials first, so that (a - b) * c and a * c - b * c share their monomials
+    pre = []
+    for t in terms:
+        try:
+            pre.append(z3.simplify(t, som=True, mul_to_power=False, hoist_mul=False) if som else t)
+        except z3.Z3Exception:
+            pre.append(t)
+    out = [walk(t) for t in pre]
+    # valid facts about real products keep the abstraction useful: sign rules (binary)
+    extra = []
+    for key, (v, rest) in list(fresh.items()):
+        if key and key[0] == "div":
+            continue
+        if len(rest) == 2 and all(e.sort() in (z3.RealSort(), z3.IntSort()) for e in rest):
+            a, b = rest
+            extra.append(z3.Implies(z3.Or(a == 0, b == 0), v == 0))
+            extra.append(z3.Implies(z3.Or(z3.And(a > 0, b > 0), z3.And(a < 0, b < 0)), v > 0))
+            extra.append(z3.Implies(z3.Or(z3.And(a > 0, b < 0), z3.And(a < 0, b > 0)), v < 0))
+    return out[:-1] + extra + out[-1:], len(fresh)
+
+
 def _solve_portfolio(facts, g, timeout_ms):
-    """one goal: z3 (short) -> cvc5 -> z3 (full) -> z3 nlsat pipeline.
-    returns (solver_with_query, result, seconds, backend)"""
+    """one goal: linear abstraction (z3, short) -> z3 (short) -> cvc5 -> z3 (full) -> z3
+    nlsat pipeline.  returns (solver_with_query, result, seconds, backend)"""
     tot = 0.0
+    try:
+        ab, nprod = _linear_abstraction(list(facts) + [g])
+    except Exception:
+        ab, nprod = None, 0
+    if nprod:
+        s0, r0, dt0 = _solve_z3_one(ab[:-1], ab[-1], min(5000, timeout_ms))
+        tot += dt0
+        if r0 == "unsat":
+            # report the ORIGINAL query (for samples); the verdict came from its abstraction
+            s = z3.Solver()
+            s.add(*facts)
+            s.add(z3.Not(g))
+            return s, "unsat", tot, "z3-linear-abstraction"
     s, r, dt = _solve_z3_one(facts, g, max(1000, timeout_ms // 4))
     tot += dt
     if r in ("sat", "unsat"):
